@@ -16,9 +16,12 @@ def sample(recs, max_n):
     return out
 
 
-def gen_docs(ctx, cfg, *, simulate=None, depth=70, max_n=None, workers=8):
+DEFECT_RX = r'defect\\":\{[^}]*class\\":\\"([A-Za-z]+)'
+
+
+def gen_docs(ctx, cfg, *, simulate=None, depth=70, max_n=None, workers=8, per_class=None):
     r = core.run_tlc(ctx, "MC_Doc", cfg, workers=(4 if simulate else workers), simulate=simulate, depth=depth, timeout=3000,
-                     max_replay=max_n)
+                     max_replay=max_n, strata=(DEFECT_RX, per_class) if per_class else None)
     ctx.model_violation(r)
     recs = r.replay
     for x in recs:
@@ -73,7 +76,7 @@ def judge_docs(ctx, prop, cfg, pout, obs):
                 key = "Returns:" + r["obs"].get("sig", "")[:60]
             ctx.violation(key, f"{prop} clause {c} fails on {text_of(r)[:160]!r} (ext {r.get('ext', r.get('extbits'))}, {r.get('conv')})",
                           dict(kind="doc", clause=c, text=text_of(r), ext=r.get("ext"), extbits=r.get("extbits"), conv=r.get("conv"),
-                               pred=r.get("pred"), obs=r["obs"]))
+                               pred=r.get("pred"), defect=r.get("defect"), obs=r["obs"]))
     return n
 
 
@@ -116,6 +119,8 @@ def _replay(ctx, case, prop, cfg):
         rec["extbits"] = c["extbits"]
     if c.get("pred"):
         rec["pred"] = c["pred"]
+    if c.get("defect"):
+        rec["defect"] = c["defect"]
     pin = os.path.join(ctx.work, "r_in.ndjson")
     pout = os.path.join(ctx.work, "r_obs.ndjson")
     core.write_ndjson(pin, [rec])
@@ -170,3 +175,34 @@ def check_c06(ctx):
 
 def replay_c06(ctx, case):
     return _replay(ctx, case, "C06", "Trace_Doc_C06.cfg")
+
+
+# ------------------------------------------------------------------------------------------ C07
+def defect_corpus(ctx):
+    quick = ctx.tier == "quick"
+    cap = 12000 if quick else 250000
+    per = 500 if quick else 12000
+    recs = gen_docs(ctx, "MC_Doc_defect.cfg", per_class=per) + gen_docs(ctx, "MC_Doc_defect_canon.cfg", per_class=per)
+    nsim = 750 if quick else 15000
+    recs += gen_docs(ctx, "MC_Doc_simdef_ext.cfg", simulate=nsim)
+    recs += gen_docs(ctx, "MC_Doc_simdef_extempty.cfg", simulate=nsim // 3)
+    recs += gen_docs(ctx, "MC_Doc_simdef_canon.cfg", simulate=nsim // 2)
+    return recs
+
+
+def check_c07(ctx):
+    core.build_harness()
+    recs = generated_corpus(ctx) + defect_corpus(ctx)
+    pout, obs = record_docs(ctx, recs)
+    judge_docs(ctx, "C07", "Trace_Doc_C07.cfg", pout, obs)
+    doc_evidence(ctx, obs, "C07: well-formed documents must produce nothing but the deprecation notice; documents with one "
+                           "cataloged invalid construct (23 parse-stage and 12 analysis-stage variants, injected at every "
+                           "position of the defect kernel and at random positions of the walks) must produce the predicted "
+                           "severity/stage/class with its first label touching the construct's byte span; validity, output "
+                           "suppression and stage rules are judged on every record.")
+    ctx.extra["documents_with_injected_defect"] = sum(1 for x in obs if "defect" in x)
+    ctx.extra["defect_classes"] = sorted({x["defect"]["class"] for x in obs if "defect" in x})
+
+
+def replay_c07(ctx, case):
+    return _replay(ctx, case, "C07", "Trace_Doc_C07.cfg")
